@@ -4,7 +4,7 @@ from . import core
 
 # tables whose model is also run against the implementation on every run: when the pattern is lost, the table as shipped is kept and the
 # correspondence stream of checklib/fallback.py re-establishes the tie (see that module); LOST lists what was lost in this run
-WHOLE_TABLE_FALLBACK = {"ExprTables", "StrTables", "VarName", "CssTables"}
+WHOLE_TABLE_FALLBACK = {"ExprTables", "StrTables", "VarName", "CssTables", "ArgLevels"}
 LOST = []
 
 
@@ -546,3 +546,34 @@ def ex_runtimehelpers():
 
 
 EXTRACTORS["RuntimeHelpers"] = ex_runtimehelpers
+
+
+def ex_arglevels():
+    """`Node::to_proc_gen_function_args` (proc_gen/tag.rs): the ArgLevel enum, the level of every kind of child node, the parameter list of every level"""
+    src = _read("glass-easel-template-compiler/src/proc_gen/tag.rs")
+    m = re.search(r"fn to_proc_gen_function_args.*?\n    \}\n", src, re.S)
+    if not m:
+        raise core.BrokenTie("extract:to_proc_gen_function_args", "function not found")
+    body = m.group(0)
+    en = re.search(r"enum ArgLevel \{(.*?)\}", body, re.S)
+    if not en:
+        raise core.BrokenTie("extract:ArgLevel", "enum not found")
+    levels = re.findall(r"(\w+)\s*=\s*(\d+)", en.group(1))
+    kinds = {}
+    for pat, name in re.findall(r"((?:Node::\w+|ElementKind::\w+)(?:\s*\{ \.\. \}|\(\.\.\)|\(_\))?(?:\s*\|\s*(?:Node::\w+|ElementKind::\w+)(?:\s*\{ \.\. \}|\(\.\.\)|\(_\))?)*)\s*=>\s*ArgLevel::(\w+)", body):
+        for k in re.findall(r"(?:Node|ElementKind)::(\w+)", pat):
+            kinds[k] = name
+    args = re.findall(r"ArgLevel::(\w+)\s*=>\s*\"([A-Z,]+)\"", body)
+    if len(levels) < 2 or len(args) != len(levels) or not {"Text", "Normal", "If", "For", "Slot", "Pure", "Include", "TemplateRef", "Comment", "UnknownMetaTag"} <= set(kinds) \
+            or "overall_level = ArgLevel::WithSlotValues" not in body or "(*overall_level as u8) < (level as u8)" not in body:
+        raise core.BrokenTie("extract:to_proc_gen_function_args", "levels / kinds / parameter lists not in the modelled form")
+    return ("/-! GENERATED from /repo/glass-easel-template-compiler/src/proc_gen/tag.rs (to_proc_gen_function_args) by checklib/extractors.py — do not edit. -/\n"
+            "namespace GE.Extracted\n"
+            "def argLevels : List (String × Nat) := [%s]\n" % ", ".join("(%s, %s)" % (lean_str(n), v) for n, v in levels) +
+            "def childLevel : List (String × String) := [%s]\n" % ", ".join("(%s, %s)" % (lean_str(k), lean_str(v)) for k, v in sorted(kinds.items())) +
+            "def levelArgs : List (String × String) := [%s]\n" % ", ".join("(%s, %s)" % (lean_str(n), lean_str(a)) for n, a in args) +
+            "def levelParams : List (String × List String) := [%s]\n" % ", ".join("(%s, [%s])" % (lean_str(n), ", ".join(lean_str(x) for x in a.split(","))) for n, a in args) +
+            "end GE.Extracted\n")
+
+
+EXTRACTORS["ArgLevels"] = ex_arglevels
